@@ -446,7 +446,8 @@ static void item_roundtrip(uint64_t idx)
 {
 	build_ints();
 	memset(rrep, 0, sizeof rrep); rt_cases = rt_splits = 0;
-	if (idx < (uint64_t)NTAGS) {
+	if (idx < (uint64_t)NTAGS * 3) {
+		int grp = (int)(idx % 3); idx /= 3;          /* 0: tag itself + integers, 1: strings / raw data, 2: timevals */
 		uint32_t tag = TAGS[idx];
 		struct evbuffer *e = evbuffer_new();
 		int r = evtag_encode_tag(e, tag), r0 = evtag_encode_tag(NULL, tag);
@@ -455,14 +456,15 @@ static void item_roundtrip(uint64_t idx)
 		if (r != ENCLEN || r0 != r || rl != r || memcmp(ref, ENC, rl)) RFAIL(15, "C42/roundtrip/tag-encoding", "tag %#x: encode returned %d/%d, %d bytes written, reference %d bytes", tag, r, r0, ENCLEN, rl);
 		else for_all_splits(ENC, ENCLEN, dec_tag, &tag);
 		struct mctx c; memset(&c, 0, sizeof c); c.tag = tag;
-		for (int i = 0; i < NI64; i++) {
+		for (int i = 0; i < NI64 && grp == 0; i++) {
 			c.ival = INTS[i];
 			if (i < NI32) { c.kind = K_INT; marshal_and_check(&c); }
 			c.kind = K_INT64; marshal_and_check(&c);
 		}
-		for (int i = 0; i < NSLENS; i++) {
+		for (int i = 0; i < NSLENS && grp == 1; i++) {
 			/* long payloads only with a few tags: the framing is the same */
 			if (SLENS[i] > 300 && idx % 4) continue;
+			if (SLENS[i] > 5000 && idx != 0 && idx != NTAGS - 1) continue;
 			for (uint32_t k = 0; k < SLENS[i]; k++) PATTERN[k] = (u8)(1 + (k * 7 + idx) % 255);    /* no NUL inside */
 			PATTERN[SLENS[i]] = 0;
 			c.data = PATTERN; c.dlen = SLENS[i];
@@ -470,9 +472,10 @@ static void item_roundtrip(uint64_t idx)
 			if (SLENS[i]) PATTERN[SLENS[i] / 2] = 0;                                               /* raw data may contain NUL */
 			c.kind = K_RAW; marshal_and_check(&c);
 		}
-		for (int i = 0; i < NTVS; i++) { c.kind = K_TIMEVAL; c.tv = TVS[i]; marshal_and_check(&c); }
-		mc_observe("round trip of tag %#x: %d ints, %d int64s, %d strings/raw blocks, %d timevals; %llu encodings, %llu split variants", tag, NI32, NI64, NSLENS, NTVS, (unsigned long long)rt_cases, (unsigned long long)rt_splits);
-	} else if (idx < (uint64_t)NTAGS + 1) {
+		for (int i = 0; i < NTVS && grp == 2; i++) { c.kind = K_TIMEVAL; c.tv = TVS[i]; marshal_and_check(&c); }
+		mc_observe("round trip of tag %#x, %s: %llu encodings, %llu split variants", tag, grp == 0 ? "the tag itself, 32- and 64-bit integers" : grp == 1 ? "strings and raw data" : "timevals", (unsigned long long)rt_cases, (unsigned long long)rt_splits);
+		idx = idx * 3 + grp;
+	} else if (idx < (uint64_t)NTAGS * 3 + 1) {
 		/* bare integers */
 		for (int i = 0; i < NI64; i++) {
 			struct evbuffer *e = evbuffer_new(); u8 ref[12]; int rl;
@@ -491,7 +494,7 @@ static void item_roundtrip(uint64_t idx)
 		mc_observe("round trip of %d 32-bit and %d 64-bit bare integers; %llu split variants", NI32, NI64, (unsigned long long)rt_splits);
 	} else {
 		/* items read back in order: int, string, timeval, int64, raw marshalled into one buffer; every single cut and every pair of cuts */
-		int variant = (int)(idx - NTAGS - 1);
+		int variant = (int)(idx - NTAGS * 3 - 1);
 		uint32_t tg[5]; for (int i = 0; i < 5; i++) tg[i] = TAGS[(variant * 5 + i * 3) % NTAGS];
 		uint32_t iv = (uint32_t)INTS[(variant * 7 + 3) % NI32]; uint64_t lv = INTS[(variant * 11 + 5) % NI64];
 		struct timeval tv = TVS[variant % NTVS]; char str[20]; snprintf(str, sizeof str, "s%dxyz", variant); u8 raw[5] = { 0, (u8)variant, 0xff, 0x80, 0 };
@@ -596,7 +599,7 @@ int main(int argc, char **argv)
 	SWEEPBITS = atoi(arg_param(argc, argv, "sweepbits", "20"));
 	uint64_t n;
 	switch (PART) {
-	case 1: n = NTAGS + 1 + N_SEQ; break;
+	case 1: n = NTAGS * 3 + 1 + N_SEQ; break;
 	case 2: n = 1ULL << (SWEEPBITS - 16); break;
 	case 3: n3a = 1 + (uint64_t)ALEN * (1 << ABITS); n3b = BLEN > ALEN ? (uint64_t)(BLEN - ALEN) * BSYM * BSYM : 0; n3c = ALL3 ? 65536 : 0; n = n3a + n3b + n3c; break;
 	default: return 2;
